@@ -109,6 +109,14 @@ var c12Specs = []c12Spec{
 		c.Add(b)
 		return &c12World{c: c, muts: []func(){func() { c.Remove(b) }}, reqs: []h.Req{{Method: "OPTIONS", Segs: []string{"a", "x"}}, {Method: "OPTIONS", Segs: []string{"b", "x"}}}}
 	}},
+	{name: "options-vs-unroute", untouched: []int{0, 1}, servers: [][]int{{0, 1}}, mutators: [][]int{{0}}, world: func(jsr bool) *c12World {
+		// the OPTIONS filter walks the routes of a service while one of its other routes is removed
+		c := c12Container(jsr)
+		c.Filter(c.OPTIONSFilter)
+		a := newWS("/a", true, "/w", "/y", "/x")
+		c.Add(a)
+		return &c12World{c: c, muts: []func(){func() { a.RemoveRoute("/a/y", "GET") }}, reqs: []h.Req{{Method: "OPTIONS", Segs: []string{"a", "x"}}, {Method: "OPTIONS", Segs: []string{"a", "w"}}}}
+	}},
 	{name: "add-from-a-route-function", untouched: []int{2}, servers: [][]int{{0, 1}, {2}}, selfMut: map[int]int{0: 0}, world: func(jsr bool) *c12World {
 		// a route function adds a service to the container that is serving it
 		c := c12Container(jsr)
